@@ -437,6 +437,7 @@ class Session:
         self.result_sets: list = []
         self.depth = 0
         self.closed = False
+        self.ctes = []             # stack of {name: (cols, rows)} of the WITH clauses being evaluated
         # isolation layer (used only while eng.cc is set)
         self.nested = 0            # > 0 inside a trigger or a stored function
         self.mode = "snapshot"     # "current" while a locking read or a DML statement is evaluated (they read the latest committed rows)
@@ -1100,9 +1101,32 @@ class Session:
                 out.extend(self._from_aliases(ref[1]))
         return out
 
+    def _cols_of(self, tn):
+        if self.ctes and tn.lower() in self.ctes[-1]:
+            return list(self.ctes[-1][tn.lower()][0])
+        return [c.name for c in self.eng.table(tn).cols]
+
+    def _on_true(self, on, f2, alias, env):
+        if on is None:
+            return True
+        if on[0] == "using":
+            # JOIN ... USING (c, ...): the named columns of the joined table equal the same-named columns of the tables to its left
+            for c in on[1]:
+                right = f2[alias].get(c)
+                left = [r[c] for a, r in f2.items() if a != alias and c in r]
+                if not left:
+                    _raise("OperationalError", 1054, f"Unknown column '{c}' in 'from clause'")
+                if right is None or left[0] is None or not _eq(left[0], right):
+                    return False
+            return True
+        return _truth(self.ev(on, env.push(f2)))
+
     def _ref_rows(self, ref, env):
         """rows and column names of a table reference evaluated in env"""
         if ref[0] == "table":
+            if self.ctes and ref[1].lower() in self.ctes[-1]:
+                cols, rows = self.ctes[-1][ref[1].lower()]
+                return rows, cols
             t = self.eng.table(ref[1])
             if self.eng.cc is not None and self.mode == "snapshot":
                 vis = self.eng.cc.visible_rows(self, t)
@@ -1145,7 +1169,7 @@ class Session:
                 for r in rows:
                     f2 = dict(f)
                     f2[alias] = r
-                    if on is None or _truth(self.ev(on, env.push(f2))):
+                    if self._on_true(on, f2, alias, env):
                         new.append(f2)
                         matched = True
                 if jt == "left" and not matched:
@@ -1170,7 +1194,7 @@ class Session:
                 for a, tn, kind in self._from_aliases(sel["from"]):
                     if e[1] is None or e[1] == a:
                         if kind == "table":
-                            names.extend(c.name for c in self.eng.table(tn).cols)
+                            names.extend(self._cols_of(tn))
                         else:
                             ref = [r for _j, r, _o in sel["from"] if r[0] == "derived" and r[2] == a][0]
                             names.extend(self.out_names(ref[1]))
@@ -1202,6 +1226,19 @@ class Session:
         return self._run_select(sel, env, lazy, with_frames)
 
     def _run_select(self, sel, env, lazy=False, with_frames=False):
+        if sel.get("with"):
+            # common table expressions: each is evaluated once, in order, and is visible by name to the later ones and to the body
+            scope = dict(self.ctes[-1]) if self.ctes else {}
+            self.ctes.append(scope)
+            try:
+                for name, sub in sel["with"]:
+                    cols, rows = self.run_select(sub, env)
+                    scope[name.lower()] = (list(cols), [dict(zip(cols, r)) for r in rows])
+                body = {k: v for k, v in sel.items() if k != "with"}
+                cols, rows = self._run_select(body, env, False, with_frames)
+                return cols, list(rows)
+            finally:
+                self.ctes.pop()
         if sel.get("kind") == "union":
             cols = self.out_names(sel)
             rows = []
@@ -1247,7 +1284,7 @@ class Session:
                     groups[k].append(f)
                 items = [(groups[k][0], groups[k]) for k in order]
             else:
-                nullf = {a: NullRow({c.name: None for c in self.eng.table(tn).cols} if tn else {})
+                nullf = {a: NullRow({c: None for c in self._cols_of(tn)} if tn else {})
                          for a, tn, _k in self._from_aliases(sel["from"])}
                 items = [(frames[0] if frames else nullf, frames)]
         else:
@@ -1264,8 +1301,8 @@ class Session:
                         if e[1] is None or e[1] == a:
                             r = f.get(a, {})
                             if kind == "table":
-                                for c in self.eng.table(tn).cols:
-                                    vals.append(r.get(c.name))
+                                for c in self._cols_of(tn):
+                                    vals.append(r.get(c))
                             else:
                                 vals.extend(r.values())
                 else:
